@@ -41,11 +41,14 @@ CLAIMED = {
   technique="Lean 4 proof over a hand model of at.rs/slyce + differential correspondence against CPython slicing", ref="DESIGN.md §6 C09"),
  "C10": dict(
   text="Lean 4 theorems over a hand model of Type::matches / == / concat / conjoin (arms in source order, unions as sets, "
-       "structs as maps), for all (well-formed) types, by induction on type size: reflexivity of == and of matches, ! least, "
+       "structs as maps), for all (well-formed) types, by induction on type size: reflexivity AND TRANSITIVITY of == and of matches "
+       "(matches_trans: for all well-formed a, b, c; by induction on the total size through unions on either side, any, "
+       "function contravariance, struct width / depth and cell invariance), ! least, "
        "any greatest, the variance equation of every constructor (arrays, tuples, struct width+depth, function parameters "
        "contravariant / results covariant, arity), invariance of mut, a union is an upper bound of its members and lies below "
-       "exactly what all members lie below. Transitivity, join/meet laws and soundness for values are NOT yet proved: they are "
-       "evaluated as laws on the real Type API for generated pairs and triples (tested). The model is tied to the code by a "
+       "exactly what all members lie below; soundness for first-order values is C01.matches_sound_partial. The join / meet "
+       "(concat / conjoin) laws are NOT yet proved: they are evaluated, with all other laws, on the real Type API for generated "
+       "pairs and triples (tested). The model is tied to the code by a "
        "differential stream over eq/matches/concat/conjoin and all 20 type queries, evaluated on the member order the "
        "implementation actually had.",
   note="Lean kernel; the Ty model is hand-written (tied by correspondence only, ~18k queries per quick run); types outside wf "
